@@ -99,7 +99,8 @@ class Gen:
                 if k < 0.3:
                     t = self.text(1, 8).replace("<", "").replace("&", "")
                     if kids and kids[-1][0] == "t":
-                        kids[-1] = ("t", kids[-1][1] + t)
+                        # (two harmless pieces can join to the forbidden `]]>`)
+                        kids[-1] = ("t", (kids[-1][1] + t).replace("]]>", "]] >"))
                     else:
                         kids.append(("t", t))
                 elif k < 0.4:
